@@ -181,8 +181,9 @@ func (rt *runtime) newError(name string, message Value, stackFramesToPop int) *o
 
 	obj := rt.newErrorObject(name, message, stackFramesToPop)
 	obj.prototype = rt.global.ErrorPrototype
-	if name != "" {
-		obj.defineProperty("name", stringValue(name), 0o111, false)
+	if name != "" && name != classErrorName {
+		// A custom name shadows Error.prototype.name; like every clause 15 property it is not enumerable
+		obj.defineProperty("name", stringValue(name), 0o101, false)
 	}
 	return obj
 }
